@@ -61,7 +61,7 @@ class Engine(ExprEval, NumpyModel, NumpyFuncs):
         self.spec_consts = dict(spec_consts or {})
         self.spec_funcs = dict(spec_funcs or {})
         self.spec_names = set(self.spec_funcs) | {"forall", "exists", "implies", "iff", "ite", "old", "shape", "rowsum",
-                                                  "is_none", "typeis", "lam", "isnan_", "fresh", "using"}
+                                                  "is_none", "typeis", "lam", "isnan_", "fresh", "using", "gather_pos", "gather_src"}
         self.externals = dict(externals or {})
         self.obligations: list[Obligation] = []
         self.assumptions: set[str] = set()
@@ -597,6 +597,10 @@ class Engine(ExprEval, NumpyModel, NumpyFuncs):
             return fresh_scalar(args[0] if args else "int", "fresh")
         if name == "using":
             return self.truth(st, args[-1])
+        if name == "gather_pos":
+            return args[0].gather_pos(to_z3(args[1]))
+        if name == "gather_src":
+            return args[0].gather_src(to_z3(args[1]))
         f = self.spec_funcs[name]
         return f(self, st, *args, **kw)
 
@@ -868,6 +872,10 @@ class Engine(ExprEval, NumpyModel, NumpyFuncs):
         if isinstance(stmt.value, ast.Constant):
             return [(st, None)]
         v = stmt.value
+        if getattr(stmt, "_ghost", False) and isinstance(v, ast.Call) and isinstance(v.func, ast.Name) and v.func.id == "assume":
+            st.assume(self.truth(st, self.eval(st, v.args[0])))
+            self.note_assumption("ghost assume: " + ast.unparse(v.args[0])[:160])
+            return [(st, None)]
         # list / object mutating method calls as statements
         if isinstance(v, ast.Call) and isinstance(v.func, ast.Attribute) and isinstance(v.func.value, ast.Name):
             base_name = v.func.value.id
@@ -1323,7 +1331,7 @@ class Engine(ExprEval, NumpyModel, NumpyFuncs):
         if d.isidentifier() and d not in scope:
             if not bind_ok:
                 raise EngineError(f"unbound shape variable {d}")
-            v = z3.Int(d)
+            v = z3.Int(fresh_name(d) if scope.get("$fresh") else d)
             scope[d] = v
             st.assume(v >= 0)
             return v
@@ -1432,7 +1440,7 @@ class Engine(ExprEval, NumpyModel, NumpyFuncs):
     def apply_contract(self, st, c: Contract, fi: FuncInfo, bound: dict, node):
         self.used_contracts.add(c.ident + ("  [assumed]" if c.assumed else ""))
         caller_env = st.env
-        scope = {"$func": fi}
+        scope = {"$func": fi, "$fresh": True}
         self.unify_params(st, c, bound, scope, node)
         for k, e in c.lets.items():
             scope[k] = self.eval_in(st, e, scope)
